@@ -22,7 +22,7 @@ def p_assume(ex, args, guard, pos):
     ex.assume(args[0], guard, "vAssume at %s" % pos)
     if args[0] is not True:
         ex.path_kills += 1
-    return None, b_and(guard, args[0])
+    return None, guard  # the assumption is a global constraint (guard -> cond); no need to carry it in every later guard
 
 
 def p_assert(ex, args, guard, pos):
@@ -71,7 +71,8 @@ def p_nondet_string(ex, args, guard, pos):
         c = z3.BitVec(ex.fresh_name("nd.%s.%d" % (name, i)), 8)
         chars.append(c)
     ln = z3.BitVec(ex.fresh_name("nd.%s.len" % name), 64)
-    ex.assume(b_and(int_cmp(">=", ln, 0, 64, True), int_cmp("<=", ln, n, 64, True)), True, "len(%s) <= %d" % (name, n))
+    ex.assume(b_and(z3.BitVecVal(0, 64) <= ln, ln <= z3.BitVecVal(n, 64)), True, "len(%s) <= %d" % (name, n))
+    VAR_BOUNDS[ln.decl().name()] = (0, n)
     ex.nondets.append((name, (chars, ln), "string"))
     return StrV(chars, ln), guard
 
@@ -98,6 +99,27 @@ def p_choose(ex, args, guard, pos):
     ex.assume(b_and(int_cmp(">=", v, 0, 64, True), int_cmp("<", v, n, 64, True)), True, "%s in [0,%s)" % (name, n))
     ex.nondets.append((name, v, "int"))
     return v, guard
+
+
+def p_case(ex, args, guard, pos):
+    """vCase(name): a concrete value fixed per job by the driver's case split (entry 'cases')"""
+    name = _conc_str(ex, args[0], "vCase")
+    cs = ex.opts.get("case", {})
+    if name not in cs:
+        raise Unsupported("vCase(%s): no case value supplied by the check spec" % name)
+    v = int(cs[name])
+    ex.nondets.append((name, v, "case"))
+    return v, guard
+
+
+def p_nondet_string_n(ex, args, guard, pos):
+    name = _conc_str(ex, args[0], "vNondet")
+    n = args[1]
+    if not isinstance(n, int):
+        raise Unsupported("vNondetStringN: length must be concrete (use vCase)")
+    chars = [z3.BitVec(ex.fresh_name("nd.%s.%d" % (name, i)), 8) for i in range(n)]
+    ex.nondets.append((name, (chars, n), "string"))
+    return StrV(chars, n), guard
 
 
 def p_noop(ex, args, guard, pos):
@@ -660,7 +682,19 @@ def _itoa_sym(ex, x, bits, signed, maxdigits):
     lim = 10 ** maxdigits
     ex.assume(b_and(int_cmp(">=", x, 0, bits, signed), int_cmp("<", x, lim, bits, signed)), True, "itoa operand in [0,10^%d)" % maxdigits)
     ex.note("bounds", "strconv.Itoa operand bounded to %d digits" % maxdigits)
-    # number of digits
+    # number of digits (concrete when the path assumptions pin it)
+    feas = []
+    for k in range(1, maxdigits + 1):
+        lo = 0 if k == 1 else 10 ** (k - 1)
+        if ex.feasible_light(b_and(int_cmp(">=", x, lo, bits, signed), int_cmp("<", x, 10 ** k, bits, signed))):
+            feas.append(k)
+    if len(feas) == 1:
+        k = feas[0]
+        chars = []
+        for j in range(k - 1, -1, -1):
+            dgt = z3.URem(z3.UDiv(bv(x, bits), z3.BitVecVal(10 ** j, bits)), z3.BitVecVal(10, bits))
+            chars.append(z3.Extract(7, 0, dgt) + 48)
+        return StrV(chars, k)
     nd = 1
     for k in range(1, maxdigits):
         nd = i_ite(int_cmp(">=", x, 10 ** k, bits, signed), k + 1, nd, 64)
@@ -679,6 +713,77 @@ def _itoa_sym(ex, x, bits, signed, maxdigits):
                 v = i_ite(int_cmp("==", nd, n_, 64, True), digits[j], v, 8)
         chars.append(v)
     return StrV(chars, nd)
+
+
+def m_append_int(ex, args, guard, pos):
+    dst, x, base = args
+    if not (isinstance(base, int) and base == 10):
+        raise Unsupported("AppendInt base != 10")
+    if isinstance(x, int):
+        sv = StrV.const(str(x))
+    else:
+        sv = _itoa_sym(ex, x, 64, True, ex.opts.get("itoa_digits", 5))
+    fr = type("F", (), {"fn": {"name": "strconv.AppendInt"}})()
+    return ex.do_append(fr, dst, sv, guard, {"type": "[]byte", "reg": "appendint"}), guard
+
+
+def m_format_int(ex, args, guard, pos):
+    x, base = args
+    if not (isinstance(base, int) and base == 10):
+        raise Unsupported("FormatInt base != 10")
+    if isinstance(x, int):
+        return StrV.const(str(x)), guard
+    return _itoa_sym(ex, x, 64, True, ex.opts.get("itoa_digits", 5)), guard
+
+
+def _builder_buf(ex, recv):
+    bi = _struct_field_index(ex, "strings.Builder", "buf")
+    return _field_ptr(recv, bi)
+
+
+def m_builder_write_string(ex, args, guard, pos):
+    p = _builder_buf(ex, args[0])
+    buf, g = ex.load(p, guard, pos, None, "Builder.buf", "[]byte")
+    fr = type("F", (), {"fn": {"name": "strings.Builder.WriteString"}})()
+    nb = ex.do_append(fr, buf, args[1], g, {"type": "[]byte", "reg": "builder"})
+    ex.store(p, nb, g, pos)
+    return TupleV([args[1].len, IfaceV.nil()]), g
+
+
+def m_builder_write(ex, args, guard, pos):
+    p = _builder_buf(ex, args[0])
+    buf, g = ex.load(p, guard, pos, None, "Builder.buf", "[]byte")
+    fr = type("F", (), {"fn": {"name": "strings.Builder.Write"}})()
+    nb = ex.do_append(fr, buf, args[1], g, {"type": "[]byte", "reg": "builder"})
+    ex.store(p, nb, g, pos)
+    return TupleV([args[1].len, IfaceV.nil()]), g
+
+
+def m_builder_write_byte(ex, args, guard, pos):
+    p = _builder_buf(ex, args[0])
+    buf, g = ex.load(p, guard, pos, None, "Builder.buf", "[]byte")
+    fr = type("F", (), {"fn": {"name": "strings.Builder.WriteByte"}})()
+    nb = ex.do_append(fr, buf, StrV([args[1]], 1), g, {"type": "[]byte", "reg": "builder"})
+    ex.store(p, nb, g, pos)
+    return IfaceV.nil(), g
+
+
+def m_builder_string(ex, args, guard, pos):
+    p = _builder_buf(ex, args[0])
+    buf, g = ex.load(p, guard, pos, None, "Builder.buf", "[]byte")
+    return ex.bytes_to_str(buf, g), g
+
+
+def m_builder_len(ex, args, guard, pos):
+    p = _builder_buf(ex, args[0])
+    buf, g = ex.load(p, guard, pos, None, "Builder.buf", "[]byte")
+    return buf.len, g
+
+
+def m_builder_reset(ex, args, guard, pos):
+    p = _builder_buf(ex, args[0])
+    ex.store(p, SliceV.nil(), guard, pos)
+    return None, guard
 
 
 def m_unsupported(name):
@@ -729,7 +834,7 @@ def install(ex):
         "vNondetUint64": _mk_nondet(64, False, "uint"), "vNondetByte": _mk_nondet(8, False, "uint"),
         "vNondetUint16": _mk_nondet(16, False, "uint"), "vNondetUint8": _mk_nondet(8, False, "uint"),
         "vNondetBool": p_nondet_bool, "vNondetFloat64": p_nondet_float64, "vNondetString": p_nondet_string, "vNondetBytes": p_nondet_bytes,
-        "vYield": p_yield, "vChoose": p_choose, "vNote": p_noop,
+        "vCase": p_case, "vNondetStringN": p_nondet_string_n, "vYield": p_yield, "vChoose": p_choose, "vNote": p_noop,
     }
     for fname, fn in ex.prog.funcs.items():
         rel = fn.get("relname")
@@ -847,6 +952,16 @@ def install(ex):
     M["strings.TrimSpace"] = m_strings_trimspace
     M["strings.ToLower"] = m_strings_tolower
     M["strconv.Itoa"] = m_strconv_itoa
+    M["strconv.AppendInt"] = m_append_int
+    M["strconv.FormatInt"] = m_format_int
+    if "strings.Builder" in ex.prog.types:
+        M["(*strings.Builder).WriteString"] = m_builder_write_string
+        M["(*strings.Builder).Write"] = m_builder_write
+        M["(*strings.Builder).WriteByte"] = m_builder_write_byte
+        M["(*strings.Builder).String"] = m_builder_string
+        M["(*strings.Builder).Len"] = m_builder_len
+        M["(*strings.Builder).Grow"] = m_runtime_noop
+        M["(*strings.Builder).Reset"] = m_builder_reset
     M["github.com/google/uuid.NewString"] = m_uuid_newstring
     M["math/rand/v2.IntN"] = m_rand_intn
     M["math/rand/v2.N[int]"] = m_rand_intn
